@@ -344,6 +344,30 @@ pub fn scenarios(tier: Tier) -> Vec<LinkScenario<fn() -> Box<dyn Probe>>> {
         ];
         out.push(LinkScenario { cfg, probe: probe_ample as fn() -> Box<dyn Probe> });
     }
+    // G6: unreliable receive budget too small for everything submitted in one tick (6000 B, three 2401-byte and
+    // two 1200-byte messages): refusals are legitimate, but what is refused must not stay accounted
+    for dir in 0..2usize {
+        if tier == Tier::Quick && dir == 1 {
+            continue;
+        }
+        let mut tight = chans(100_000);
+        tight[2] = Chan::new(2, Kind::Unreliable, 6000, 0);
+        let mut cfg = LinkCfg::base(&format!("unreliable receive budget 6000 overrun by 3x2401 + 2x1200 dir{}", dir), tight.clone(), tight);
+        cfg.dt_ms = vec![1000];
+        cfg.horizon = 3;
+        cfg.tail = 6;
+        cfg.drains = vec![Drain::End, Drain::Skip];
+        cfg.fates = vec![Fate::Ok, Fate::Drop, Fate::Dup, Fate::Delay1];
+        cfg.script = vec![
+            Send::at(0, dir, 2, 2401),
+            Send::at(0, dir, 2, 2401),
+            Send::at(0, dir, 2, 1200),
+            Send::at(1, dir, 2, 2401),
+            Send::at(1, dir, 2, 1200),
+            Send::at(2, dir, 2, 2401),
+        ];
+        out.push(LinkScenario { cfg, probe: probe_ample as fn() -> Box<dyn Probe> });
+    }
     // G3: unreliable fragments and the 3 s rule (1 s ticks); lossy baseline: second slice always lost
     for dir in 0..2usize {
         if tier == Tier::Quick && dir == 1 {
